@@ -1,0 +1,26 @@
+//go:build verif
+
+// Contracts for the mt_transfer application module callbacks (comment-only; read by /verif's tibcvc).
+package mttransfer
+
+//@ // C19 / C06: the callback never fails the transaction because the keeper refused the packet: it answers with an error
+//@ // acknowledgement, and in that case the token state is untouched; it never writes the tibc store; the acknowledgement it
+//@ // returns is never empty.
+//@ func (AppModule).OnRecvPacket(ctx, packet) (res, ack, err)
+//@   props C19 C06 C03
+//@   modifies mtBal, mtSupply, mtExists, mtDenom, mtxfer, events
+//@   requires sound: keeper.mtSound(mtBal, mtSupply)
+//@   ensures keeper.once:  ncalls((Keeper).OnRecvPacket) <= 1 && (forall k in calls((Keeper).OnRecvPacket) :: k.packet == packet)
+//@   ensures decoded:      called((Keeper).OnRecvPacket) <==> err == nil
+//@   ensures success.ack:  (forall k in calls((Keeper).OnRecvPacket) :: k.err == nil ==> ack == bytes(resAck("\x01")))
+//@   ensures error.ack:    (forall k in calls((Keeper).OnRecvPacket) :: k.err != nil ==> ack == bytes(errAck(errtext(k.err))) && mtBal == old(mtBal) && mtSupply == old(mtSupply))
+//@   ensures never_empty:  err == nil ==> len(ack) != 0 && ack != nil
+//@   ensures undecodable.noeffect: err != nil ==> mtBal == old(mtBal) && mtSupply == old(mtSupply) && ack == nil
+//@
+//@ func (AppModule).OnAcknowledgementPacket(ctx, packet, acknowledgement) (res, err)
+//@   props C19 C06 C03
+//@   modifies mtBal, mtSupply, mtExists, mtDenom, mtxfer, events
+//@   requires sound: keeper.mtSound(mtBal, mtSupply)
+//@   ensures keeper.once: ncalls((Keeper).OnAcknowledgementPacket) <= 1
+//@   ensures propagate:   (forall k in calls((Keeper).OnAcknowledgementPacket) :: k.err != nil ==> err != nil)
+//@   ensures undecodable.noeffect: !called((Keeper).OnAcknowledgementPacket) ==> err != nil && mtBal == old(mtBal) && mtSupply == old(mtSupply)
